@@ -1301,6 +1301,45 @@ fn mutate(case: &mut Case, rng: &mut Rng, hist: &mut Hist) {
             r.sprops = 1 + rng.below(200) as u32;
         }
     }
+    // a declaration with several declarators: `T a.., b..;` — a clone of a resource joins its declaration; dimensions,
+    // register annotation (index, and with the register spelling the space: an earlier declarator may carry a space the
+    // later one does not) and static sampler are per declarator, everything else is shared
+    let mut i = 0;
+    while i < case.res.len() {
+        let h = case.res[i].clone();
+        if h.kind != "cbuffer" && !h.ns && !h.joined && case.res.len() < 10 && rng.chance(1, 8) {
+            let mut j = h.clone();
+            j.name = format!("{}j", h.name);
+            j.joined = true;
+            j.ss = false;
+            j.sprops = 0;
+            let annotatable = h.kind != "struct" && h.kind != "RayDesc" && h.spell.typedef_dims().is_empty();
+            j.reg_index = if annotatable && !h.ss && rng.chance(1, 3) { Some(rng.below(12) as u32) } else { None };
+            if h.gspell == GSpell::Reg && rng.chance(1, 2) {
+                j.group = None;
+            }
+            if !h.ss && h.kind != "struct" && h.kind != "RayDesc" && !matches!(h.eff_arr(), ArrLen::Unsized | ArrLen::Nested(..)) && h.spell.typedef_dims().is_empty() {
+                j.arr = if h.bl || rng.chance(1, 2) { ArrLen::Sized(1 + rng.below(3) as u32) } else { ArrLen::No };
+            }
+            if j.joins(&h) {
+                case.res.insert(i + 1, j);
+                for f in case.helpers.iter_mut().chain(case.entries.iter_mut()) {
+                    let mut extra = Vec::new();
+                    for u in f.uses.iter_mut() {
+                        if u.0 > i {
+                            u.0 += 1;
+                        } else if u.0 == i && rng.chance(1, 2) {
+                            extra.push((i + 1, ' '));
+                        }
+                    }
+                    f.uses.extend(extra);
+                }
+                hist.add("variant=several-declarators");
+                i += 1;
+            }
+        }
+        i += 1;
+    }
     // statement shapes around resource mentions
     for f in case.helpers.iter_mut().chain(case.entries.iter_mut()) {
         for u in f.uses.iter_mut() {
